@@ -331,9 +331,8 @@ def check(prop: str, tier: str, run: Run, replay_case=None):
         service_level = CFG[name]["NZones"] > 1
         if service_level:
             # full service is ~40 ms per call: deterministic sample, all multi-zone shapes kept in rotation
-            k = max(1, len(cases) // (1500 if tier == "quick" else 12000))
-            off = seed() % k
-            jobs = [(c, embs3[i % 3]) for i, c in enumerate(cases) if i % k == off]
+            from ..common import sample
+            jobs = [(c, embs3[i % 3]) for i, c in enumerate(sample(cases, 1500 if tier == "quick" else 12000, 1))]
             fn, init = replay_service, _init_service
         else:
             if tier == "quick":
